@@ -2,10 +2,13 @@
 
 use crate::engine::Ctx;
 
+pub mod c11;
 pub mod c12;
+pub mod c15;
+pub mod c17;
 pub mod c20;
 
-pub const ALL: &[&str] = &["C12", "C20"];
+pub const ALL: &[&str] = &["C11", "C12", "C15", "C17", "C20"];
 
 pub fn exists(p: &str) -> bool {
     ALL.contains(&p)
@@ -13,7 +16,10 @@ pub fn exists(p: &str) -> bool {
 
 pub fn run(p: &str, ctx: &mut Ctx) {
     match p {
+        "C11" => c11::run(ctx),
         "C12" => c12::run(ctx),
+        "C15" => c15::run(ctx),
+        "C17" => c17::run(ctx),
         "C20" => c20::run(ctx),
         _ => panic!("unknown property {}", p),
     }
@@ -22,7 +28,10 @@ pub fn run(p: &str, ctx: &mut Ctx) {
 /// (non-triviality rule, assumptions)
 pub fn meta(p: &str) -> (String, Vec<String>) {
     let (r, a): (&str, &[&str]) = match p {
+        "C11" => (c11::RULE, c11::ASSUMPTIONS),
         "C12" => (c12::RULE, c12::ASSUMPTIONS),
+        "C15" => (c15::RULE, c15::ASSUMPTIONS),
+        "C17" => (c17::RULE, c17::ASSUMPTIONS),
         "C20" => (c20::RULE, c20::ASSUMPTIONS),
         _ => ("", &[]),
     };
